@@ -203,8 +203,9 @@ pub fn fixed_pool() -> Vec<Value> {
     for v in [0.0, -0.0, 1.0, -1.0, 2.5, 1e21, 5e-324, f64::INFINITY, f64::NEG_INFINITY, 9007199254740993.0] {
         p.push(Value::make_number(v));
     }
-    for v in [0.0, -0.0, 1.0, 2.5] {
-        for unit in ["meter", "second", "kilowatt", "percent"] {
+    for v in [0.0, -0.0, 1.0, 2.5, 1000.0, 32.0] {
+        // incl. pairs of different but convertible units (meter/kilometer, second/millisecond, celsius/fahrenheit)
+        for unit in ["meter", "kilometer", "second", "millisecond", "kilowatt", "percent", "celsius", "fahrenheit"] {
             p.push(Value::make_number_unit(v, u(unit)));
         }
     }
@@ -232,7 +233,7 @@ pub fn fixed_pool() -> Vec<Value> {
         p.push(dt(1_600_000_000, z));
         p.push(dt(1_600_000_001, z));
     }
-    for (a, b) in [(0.0, 0.0), (-0.0, 0.0), (0.0, -0.0), (1.0, 2.0), (1.0, 3.0), (2.0, 1.0), (-90.0, 180.0)] {
+    for (a, b) in [(0.0, 0.0), (-0.0, 0.0), (0.0, -0.0), (-0.0, -0.0), (1.0, 2.0), (1.0, 3.0), (2.0, 1.0), (-90.0, 180.0), (51.5, 0.0), (51.5, -0.0), (0.0, 7.5), (-0.0, 7.5)] {
         p.push(Value::make_coord_from(a, b));
     }
     let n = |x: f64| Value::make_number(x);
@@ -311,9 +312,9 @@ fn vclass(v: &Value) -> String {
 
 /// Small random values over a tiny alphabet so that near-collisions are frequent.
 fn small_value(rng: &mut Rng, depth: usize) -> Value {
-    let nums = [0.0, -0.0, 1.0, 2.0, -1.0, 0.5];
+    let nums = [0.0, -0.0, 1.0, 2.0, -1.0, 0.5, 1000.0, 0.001];
     let strs = ["", "a", "b"];
-    let units = ["meter", "second"];
+    let units = ["meter", "second", "kilometer", "millisecond"];
     let k = if depth == 0 { rng.below(9) } else { rng.below(12) };
     match k {
         0 => Value::Null,
